@@ -101,6 +101,21 @@ class Rec:
         return n
 
 
+class _Recorder:
+    """A callback that is an object of a value-style class: equal to every other instance, not hashable."""
+
+    def __init__(self, fn):
+        self.fn = fn
+
+    def __call__(self, *a, **kw):
+        return self.fn(*a, **kw)
+
+    def __eq__(self, other):
+        return type(other) is _Recorder
+
+    __hash__ = None
+
+
 class Run:
     def __init__(self, param, rng, feats, idx=0, level='instance', nwatch=None, proglen=None, maxdepth=3):
         self.param = param
@@ -237,6 +252,12 @@ class Run:
             w['actions'].append(('unwatch_self',) if rng.random() < 0.5 else ('unwatch_other',))
         grp = [w]
         fn = self.make_cb(grp)
+        lookalike = 'twins' in self.feats and not w['actions'] and rng.random() < 0.3
+        if lookalike or rng.random() < 0.1:
+            # the callback is a callable OBJECT of a value-style class (like a dataclass with __call__): all its instances
+            # compare equal and none can be hashed
+            fn = _Recorder(fn)
+            self.stats['callable_object_callbacks'] = self.stats.get('callable_object_callbacks', 0) + 1
 
         def register(wd):
             if mode == 'args':
@@ -247,7 +268,18 @@ class Run:
                                                          queued=wd['queued'], precedence=wd['precedence'])
         register(w)
         self.reg.append(w)
-        if 'twins' in self.feats and not w['actions'] and rng.random() < 0.3:
+        if lookalike:
+            # another callback that compares equal to this one, subscribed with identical settings: two watchers that
+            # compare equal although they are different subscriptions - each is called, and removing one leaves the other
+            w2 = dict(w, id=len(self.reg), regidx=self.regidx, actions=[], calls=0)
+            self.regidx += 1
+            fn_ = fn
+            fn = _Recorder(self.make_cb([w2]))
+            register(w2)
+            fn = fn_
+            self.reg.append(w2)
+            self.stats['lookalike_watchers'] = self.stats.get('lookalike_watchers', 0) + 1
+        elif 'twins' in self.feats and not w['actions'] and rng.random() < 0.3:
             # the same callback subscribed a second time with identical settings: two distinct watchers that compare
             # equal; each of them must be called (the callback cannot tell them apart, the monitor tries both)
             w2 = dict(w, id=len(self.reg), regidx=self.regidx, actions=[], calls=0)
